@@ -214,6 +214,13 @@ def Store.get (σ : Store) (n : Nat) : Option PVal :=
     | some kw => kw n
     | none => none
 
+/-! ### the concrete system: several `LLMParams` managers (one per task) working on ONE shared LLM object -/
+
+structure CSys where
+  store : Store
+  saved : Nat → List (Nat × PVal)          -- `original_params` of each manager
+  calls : List (Nat × List (Nat × PVal))   -- what each LLM call ran with, for the parameters its task set (`None` if unknown)
+
 /-! ### the abstract save / set / restore system the scheduling theorems are about
 
   A store maps parameter ids to values; task `t` has the altered parameters `tasks t`
@@ -247,6 +254,18 @@ def runSched {V : Type} (tasks : Nat → List (Nat × V)) (st : Sys V) (sched : 
   sched.foldl (step tasks) st
 
 def init {V : Type} (σ0 : Nat → V) : Sys V := { store := σ0, saved := fun _ => [], calls := [] }
+
+def cstep (tasks : Nat → List (Nat × PVal)) (st : CSys) : Nat × Act → CSys
+  | (t, .enter) =>
+    let r := enter (tasks t) st.store
+    { st with store := r.1, saved := upd st.saved t r.2 }
+  | (t, .call) => { st with calls := st.calls ++ [(t, (tasks t).map fun p => (p.1, (st.store.get p.1).getD none))] }
+  | (t, .exit) => { st with store := exit (st.saved t) st.store }
+
+def runSchedC (tasks : Nat → List (Nat × PVal)) (st : CSys) (sched : List (Nat × Act)) : CSys :=
+  sched.foldl (cstep tasks) st
+
+def initC (σ0 : Store) : CSys := { store := σ0, saved := fun _ => [], calls := [] }
 
 /-- critical sections are disjoint or properly nested and every call happens while its own section
     is the innermost one (stack discipline; what sequential service trivially satisfies) -/
